@@ -74,6 +74,13 @@ class Ctx:
         self._ntlc = 0
         self._known = self._load_known()
         self._nrep = 0
+        rdir = os.path.join(VERIF, 'evidence', 'replays')
+        if os.path.isdir(rdir) and not replay:
+            for fn in os.listdir(rdir):
+                if fn.startswith(prop + '-'):
+                    os.remove(os.path.join(rdir, fn))
+        import threading
+        self._lock = threading.Lock()
 
     # ------------------------------------------------------------------ misc
     def _cleanup(self):
@@ -231,8 +238,10 @@ class Ctx:
         """Run TLC on spec/<module>.tla with spec/<cfg> (default <module>.cfg)
         in a private directory.  files: {name: text} extra files (generated MC
         modules, traces).  simulate: dict(num=, file=bool)."""
-        self._ntlc += 1
-        d = os.path.join(self.work, 'tlc-%d' % self._ntlc)
+        with self._lock:
+            self._ntlc += 1
+            ntlc = self._ntlc
+        d = os.path.join(self.work, 'tlc-%d' % ntlc)
         os.makedirs(d)
         for fn in os.listdir(SPEC):
             if fn.endswith('.tla') or fn.endswith('.cfg'):
@@ -243,7 +252,7 @@ class Ctx:
                 f.write(text)
         cfgname = cfg or (module + '.cfg')
         if cfg_text is not None:
-            cfgname = '_gen_%d.cfg' % self._ntlc
+            cfgname = '_gen_%d.cfg' % ntlc
             with open(os.path.join(d, cfgname), 'w') as f:
                 f.write(cfg_text)
         args = ['tlc', '-metadir', os.path.join(d, 'meta'), '-config', cfgname]
@@ -303,6 +312,21 @@ class Ctx:
         self.log('TLC %s/%s: %s gen=%d distinct=%d depth=%d %.1fs' % (module, label or cfgname, r.error or 'ok',
                                                                       r.generated, r.distinct, r.depth, r.wall))
         return r
+
+    def tlc_many(self, jobs, par=None):
+        """Run several TLC jobs concurrently.  jobs: list of (args, kwargs) for
+        self.tlc; returns results in order (an Infra raised by a job is
+        re-raised)."""
+        from concurrent.futures import ThreadPoolExecutor
+        par = par or max(1, NCPU // 2)
+        def one(j):
+            a, k = j
+            k = dict(k)
+            k.setdefault('workers', 2)
+            return self.tlc(*a, **k)
+        with ThreadPoolExecutor(max_workers=par) as ex:
+            futs = [ex.submit(one, j) for j in jobs]
+            return [f.result() for f in futs]
 
     def sim_files(self, r):
         sd = os.path.join(r.dir, 'sim')
